@@ -1,3 +1,4 @@
 R BHS.Merkle
 X Merkle.page_http Merkle.page Merkle.walk_pages Merkle.spec_page Merkle.spec_walk_ok Merkle.spec_listing Merkle.page_result_eqb Merkle.roots_distinct_b Merkle.list_eqb Merkle.pair_eqb
 X Store.set_st
+X Merkle.cap
